@@ -23,8 +23,11 @@ CONSTANTS
     Faults,       \* subset of {"sqlerr", "refuse"}
     Emit          \* print histories?
 
-VARIABLES mode, rows, used, g, line, nt, hist
-vars == <<mode, rows, used, g, line, nt, hist>>
+VARIABLES mode, rows, used, g, line, nt, tags, hist
+vars == <<mode, rows, used, g, line, nt, tags, hist>>
+\* tags: the fault classes taken so far ("sqlerr", "refuse").  A failed statement changes nothing in
+\* the spec, so without the tags in the VIEW a history that contains one would be shadowed by an
+\* equivalent history without it and the real handler would never be driven past a fault.
 
 ModeOf(n) == CASE n = "Broadcast" -> Broadcast [] n = "Callback" -> Callback [] n = "Both" -> Both [] OTHER -> Neither
 
@@ -38,6 +41,7 @@ Init ==
     /\ mode \in {ModeOf(n) : n \in Modes}
     /\ rows = <<>> /\ used = {} /\ g = GhostInit /\ nt = 0
     /\ line = Line("new", mode, 0, <<>>, "ok", 0, IF ValidateOptions(mode) THEN "ok" ELSE "invalid", <<>>, <<>>, "nil", <<>>)
+    /\ tags = {}
     /\ hist = <<>>
 
 Ins(e) ==
@@ -51,7 +55,7 @@ Ins(e) ==
           /\ g' = GhostNext(g, ln)
     /\ used' = used \cup {e}
     /\ hist' = Append(hist, Op("ins", e, <<>>, "ok", 0))
-    /\ UNCHANGED <<mode, nt>>
+    /\ UNCHANGED <<mode, nt, tags>>
 
 Perms(n) == {p \in [1..n -> 1..n] : {p[j] : j \in 1..n} = 1..n}
 
@@ -64,6 +68,7 @@ DoTick(ord, q, fail) ==
           /\ line' = ln
           /\ g' = GhostNext(g, ln)
     /\ nt' = nt + 1
+    /\ tags' = tags \cup (IF q # "ok" THEN {"sqlerr"} ELSE {}) \cup (IF fail # 0 THEN {"refuse"} ELSE {})
     /\ hist' = Append(hist, Op("tick", 0, ord, q, fail))
     /\ UNCHANGED <<mode, used>>
 
@@ -85,7 +90,7 @@ Drained == (nt = MaxTicks /\ line.k = "tick" /\ Clean(line)) => g.owed = {}
 
 \* generation: one history per distinct (state, last step)
 EmitInv == (~Emit) \/ PrintT(<<"B", ToJson([mode |-> mode, ops |-> hist])>>)
-GenView == <<mode, rows, used, g, line, nt>>
+GenView == <<mode, rows, used, g, line, nt, tags>>
 
 ASSUME PrintT(<<"CONST", ToJson([eons |-> EonTab, cfgs |-> CfgTab, loop |-> LoopMode])>>)
 =============================================================================
